@@ -10,7 +10,7 @@ LATTICE = {
     'local_asn': [100],
     'bgp_id': [1, 2, 0x01000002, 0x02000001],          # multi-octet identifiers: the octets order as a big-endian number
     'peer': [(4, 1), (4, 2), (6, 1), (4, 0x01000002), (4, 0x02000001)],
-    'origin': [None, 0, 2],
+    'origin': [None, 0, 1, 2, 3, 255],        # 3.. are unassigned ORIGIN codes (OriginType::Unimplemented): ordered after INCOMPLETE, by number
     'path': [None, (), ('a10',), ('a10', 'a20'), ('a30', 'a20'), ('s',), ('a10', 's'), ('o', 'a10'), ('a10', 'o'),
              ('a100', 'a20'), ('a10', 'c'), ('c', 'a10', 'a20'), ('a10', 's', 'c', 'o')],
     'local_pref': [None, 50, 150],
